@@ -73,3 +73,21 @@ FAMILIES.append(Family("globals_race", gen_race, impl_race, None, None, oracle_r
 for _f in FAMILIES:
     if _f.name in ("programs", "roundtrip"):
         _f.corpus = list(_f.corpus or []) + [dict(c) for c in progs.CORPUS_FEATURES]
+
+
+# ---- decorated generators closed / thrown into while suspended inside an action (generator model of C15): nothing raised
+# into the application, nothing swallowed
+from props import C15 as _c15
+from lib.framework import Family
+
+
+def gen_generators(rng, tier):
+    cases = [c for c in _c15.gen_scripts(rng, tier)
+             if any(s[0] == "resume" and s[2][0] in ("close", "throw", "throw_ge") for s in c["script"])]
+    return cases[:80 if tier == "quick" else 2500]
+
+
+FAMILIES.append(Family("generators", gen_generators, _c15.impl_scripts, _c15.model_scripts, _c15.model_obs_scripts,
+                       _c15.oracle_scripts, _c15.nontrivial_scripts, imports=["Model.Generators"],
+                       project=_c15.project_scripts, shrink=_c15.shrink_scripts, describe=_c15.describe_scripts,
+                       shard=100, coq_shard=30))
